@@ -40,8 +40,8 @@ BUILT = {
  "C12": ("engine-b", "exploration", "controlled-scheduler concurrency testing with a FastTrack-style vector-clock race detector fed by the orderings the code passes to its atomics",
          "Programs with cross-thread hand-over of recycled ranges, owned buffers sent between threads, arena clones dropped on other threads; happens-before is computed from the actual Ordering arguments reported by the hook; any unordered pair of accesses to a common byte with a non-atomic side is a violation.",
          "judged on sequentially consistent interleavings; SeqCst treated as AcqRel", "4.4, 5/C12"),
- "C13": ("engine-a", "exploration", "stateful property testing, release-exactly-once predicates, drop counters, refs() model, unmount event counter",
-         "Clone/alloc/to-owned/detach/drop in any order incl. original first, with a generated teardown order; per-drop state delta must equal exactly one dealloc of the buffer extent; Unmount event exactly once at the last holder.",
+ "C13": ("engine-a", "exploration", "stateful property testing (release-exactly-once predicates, drop counters, refs() model, unmount event counter) + controlled-scheduler clone/drop interleavings with a reference-count oracle",
+         "Clone/alloc/to-owned/detach/drop in any order incl. original first, with a generated teardown order; per-drop state delta must equal exactly one dealloc of the buffer extent; Unmount event exactly once at the last holder. One case in six is a multi-threaded Engine B program (clones, owned buffers sent between threads) in which every access to the reference count must observe the model's number of live arena values and the memory is released once, by the last holder, under the scheduler.",
          "Unmount event at the top of Memory::unmount stands for the release of the backing store", "5/C13"),
  "C14": ("buffer-engine", "exploration", "property testing of every buffer writer/reader against a reference encoder with whole-arena before/after snapshots and canary neighbours; round-trip relations",
          "One generated buffer (fresh / recycled / aligned at odd cursor, borrowed / owned, capacity 0..96, any fill level) between canary neighbours; 1..5 generated calls over 12 integer types x 3 byte orders, LEB128, slices, set_len, align_to/put/put_aligned over the type table; out-of-buffer bytes compared byte for byte after every call; checked and unchecked builds.",
@@ -101,7 +101,7 @@ def main():
             {"name": "reader-engine", "path": "/verif/harness/src/props/small.rs", "serves_properties": ["C15"], "kind_free_text": "micro-case property engine for the arena-level get_* readers"},
             {"name": "checksum-engine", "path": "/verif/harness/src/props/small.rs", "serves_properties": ["C19"], "kind_free_text": "micro-case property engine for Allocator::checksum"},
             {"name": "file-engine", "path": "/verif/harness/src/props/c09.rs", "serves_properties": ["C09"], "kind_free_text": "file mutator + read-only session engine on top of Engine A's file builder"},
-            {"name": "engine-b", "path": "/verif/harness/src/engb.rs", "serves_properties": ["C02", "C07", "C12"], "kind_free_text": "controlled scheduler: real threads, real sync::Arena, baton passed at every atomic access (verif hook) following a generated schedule; shadow map, stall detector, vector-clock race detector"},
+            {"name": "engine-b", "path": "/verif/harness/src/engb.rs", "serves_properties": ["C02", "C07", "C12", "C13"], "kind_free_text": "controlled scheduler: real threads, real sync::Arena, baton passed at every atomic access (verif hook) following a generated schedule; shadow map, stall detector, vector-clock race detector"},
             {"name": "engine-a", "path": "/verif/harness/src/enga.rs", "serves_properties": [p for p in ALL if p in BUILT and BUILT[p][0] == "engine-a"], "kind_free_text": "single-threaded model-based history interpreter driven by proptest strategies; shadow map + free-list snapshot oracles; worker processes under a supervisor"},
         ],
         "checks": checks,
